@@ -54,6 +54,12 @@ inductive ScanR where
   | cont (first : Option Nat)     -- loop finished; `first_bucket`
   deriving Repr, DecidableEq
 
+/-- `if (NULL == first_bucket) first_bucket = kv;` -/
+@[inline] def firstOr (first : Option Nat) (i : Nat) : Option Nat :=
+  match first with
+  | none => some i
+  | some f => some f
+
 /-- one probe loop of `janet_dict_find` over the bucket indices `idxs` -/
 def scan (data : Array Slot) (k : Nat) : List Nat → Option Nat → ScanR
   | [], first => .cont first
@@ -62,7 +68,7 @@ def scan (data : Array Slot) (k : Nat) : List Nat → Option Nat → ScanR
     match kv.key with
     | none =>
       if kv.val = vNil then .ret i
-      else scan data k rest (match first with | none => some i | some f => some f)
+      else scan data k rest (firstOr first i)
     | some k' => if k' = k then .ret i else scan data k rest first
 
 /-- `janet_dict_find(buckets, cap, key)`: `some i` = pointer to bucket `i`, `none` = NULL -/
@@ -118,15 +124,22 @@ def Table.rehash (h : Nat → Nat) (t : Table) (size : Nat) : Table :=
   let r := rehashLoop h t.data.toList (Array.replicate size Slot.empty, t.bad)
   { t with data := r.1, deleted := 0, bad := r.2 }
 
-/-- the tail shared by `janet_table_put` and `janet_table_put_no_overwrite` once the key is known to be absent;
-`b` is the bucket `janet_table_find` returned -/
-def Table.insertNew (h : Nat → Nat) (t : Table) (b : Option Nat) (k : Nat) (v : Val) : Table :=
-  let t := if b.isNone || rehashNeeded t.count t.deleted t.capacity then t.rehash h (rehashSize t.count) else t
+/-- `if (NULL == bucket || <rehash test>) janet_table_rehash(t, janet_tablen(<size>));` -/
+def Table.maybeRehash (h : Nat → Nat) (t : Table) (b : Option Nat) : Table :=
+  if b.isNone || rehashNeeded t.count t.deleted t.capacity then t.rehash h (rehashSize t.count) else t
+
+/-- `bucket = janet_table_find(t, key); if (bucket->value is a boolean) --t->deleted; bucket->key = key; ...; ++t->count;` -/
+def Table.insertAt (h : Nat → Nat) (t : Table) (k : Nat) (v : Val) : Table :=
   match dictFind h t.data k with
   | none => { t with bad := true }
   | some i =>
-    let t := if isBoolVal (slotAt t.data i).val then { t with deleted := t.deleted - 1 } else t
-    { t with data := t.data.setIfInBounds i ⟨some k, v⟩, count := t.count + 1 }
+    { t with deleted := if isBoolVal (slotAt t.data i).val then t.deleted - 1 else t.deleted,
+             data := t.data.setIfInBounds i ⟨some k, v⟩, count := t.count + 1 }
+
+/-- the tail shared by `janet_table_put` and `janet_table_put_no_overwrite` once the key is known to be absent;
+`b` is the bucket `janet_table_find` returned -/
+def Table.insertNew (h : Nat → Nat) (t : Table) (b : Option Nat) (k : Nat) (v : Val) : Table :=
+  (t.maybeRehash h b).insertAt h k v
 
 /-- key argument of `janet_table_put`: nil and NaN keys are ignored -/
 inductive KArg where
